@@ -183,30 +183,101 @@ theorem fd_calls_within_upper_bounds (sp : Space) (x : Vec) (s : Step) (idx : Li
       exact fd_perturbation_within_upper_bound sp x s i u hu (hx i u hu)
     · exact hx j u hu
 
-/-- Centered differences: the forward point never exceeds the upper bound and the backward
-    point never falls below the lower bound. -/
+/-- The forward half step of the centered scheme is zeroed exactly when the forward point would
+    exceed the (working-space) upper bound. -/
+theorem cdFwdBlocked_iff (sp : Space) (x : Vec) (s : Step) (i : Nat) (u : ℚ)
+    (hu : sp.ubW i = some u) :
+    cdFwdBlocked (some sp) x s i = true ↔ u < getR x i + s.at i := by
+  simp [cdFwdBlocked, hu]
+
+theorem cdFwdBlocked_unbounded (sp : Space) (x : Vec) (s : Step) (i : Nat)
+    (hu : sp.ubW i = none) : cdFwdBlocked (some sp) x s i = false := by
+  simp [cdFwdBlocked, hu]
+
+/-- Centered differences: the forward point never exceeds the upper bound (every point, every
+    non-negative step, every width of the interval), the backward point never falls below the lower
+    bound as long as the forward point is admissible, and the two points are on either side of `x`. -/
 theorem cd_perturbation_within_bounds (sp : Space) (x : Vec) (s : Step) (i : Nat)
     (hh : 0 ≤ s.at i) :
     (∀ u, sp.ubW i = some u → getR x i ≤ u → getR x i + cdPlus (some sp) x s i ≤ u) ∧
-    (∀ l, sp.lbW i = some l → l ≤ getR x i → l ≤ getR x i + cdMinus (some sp) x s i) ∧
+    (∀ l, sp.lbW i = some l → l ≤ getR x i → cdFwdBlocked (some sp) x s i = false →
+      l ≤ getR x i + cdMinus (some sp) x s i) ∧
     getR x i + cdMinus (some sp) x s i ≤ getR x i ∧ getR x i ≤ getR x i + cdPlus (some sp) x s i := by
   refine ⟨?_, ?_, ?_, ?_⟩
   · intro u hu hx
-    unfold cdPlus; simp only [hu]
+    unfold cdPlus
     split
     · linarith
-    · rename_i h; exact not_lt.mp h
-  · intro l hl hx
-    unfold cdMinus; simp only [hl]
+    · rename_i h
+      have := (cdFwdBlocked_iff sp x s i u hu).not.mp h
+      exact not_lt.mp this
+  · intro l hl hx hb
+    unfold cdMinus; simp only [hl, hb, and_true]
     split
     · linarith
     · rename_i h; have := not_lt.mp h; linarith
   · cases h : sp.lbW i with
     | none => simp only [cdMinus, h]; linarith
     | some l => simp only [cdMinus, h]; split <;> linarith
-  · cases h : sp.ubW i with
-    | none => simp only [cdPlus, h]; linarith
-    | some u => simp only [cdPlus, h]; split <;> linarith
+  · unfold cdPlus; split <;> linarith
+
+/-- **No admissible direction** (frozen component `lb = ub`, interval narrower than the step, point
+    in the middle of an interval shorter than two steps, …): whenever the forward point would exceed
+    the upper bound, the forward half step is zero and the backward half step is `-h` — whatever the
+    lower bound.  The centered scheme then is the backward quotient of `FirstOrderFD`. -/
+theorem cd_forward_blocked (sp : Space) (x : Vec) (s : Step) (i : Nat) (u : ℚ)
+    (hu : sp.ubW i = some u) (hb : u < getR x i + s.at i) :
+    cdPlus (some sp) x s i = 0 ∧ cdMinus (some sp) x s i = -(s.at i) ∧
+    cdMinus (some sp) x s i = fdStep (some sp) x s i := by
+  have hB : cdFwdBlocked (some sp) x s i = true := (cdFwdBlocked_iff sp x s i u hu).mpr hb
+  refine ⟨by simp [cdPlus, hB], ?_, ?_⟩
+  · cases h : sp.lbW i with
+    | none => simp only [cdMinus, h]
+    | some l => simp [cdMinus, h, hB]
+  · have : fdStep (some sp) x s i = -(s.at i) := by simp [fdStep, hu, hb]
+    rw [this]
+    cases h : sp.lbW i with
+    | none => simp only [cdMinus, h]
+    | some l => simp [cdMinus, h, hB]
+
+/-- **The centered quotient is never `0/0`**: for a positive step the divisor
+    `norm(x_plus − x_minus)` is `h` (one-sided, next to a bound) or `2h`, for every design space,
+    every point and every width of the bounds (including `lb = ub`). -/
+theorem cd_divisor_pos (sp : Option Space) (x : Vec) (s : Step) (i : Nat) (hh : 0 < s.at i) :
+    (absR (cdPlus sp x s i - cdMinus sp x s i) = s.at i ∨
+      absR (cdPlus sp x s i - cdMinus sp x s i) = 2 * s.at i) ∧
+    0 < absR (cdPlus sp x s i - cdMinus sp x s i) := by
+  have key : (cdPlus sp x s i = s.at i ∧ cdMinus sp x s i = -(s.at i)) ∨
+      (cdPlus sp x s i = 0 ∧ cdMinus sp x s i = -(s.at i)) ∨
+      (cdPlus sp x s i = s.at i ∧ cdMinus sp x s i = 0) := by
+    cases sp with
+    | none => exact Or.inl ⟨by simp [cdPlus, cdFwdBlocked], rfl⟩
+    | some sp =>
+      cases hB : cdFwdBlocked (some sp) x s i with
+      | true =>
+        refine Or.inr (Or.inl ⟨by simp [cdPlus, hB], ?_⟩)
+        cases h : sp.lbW i with
+        | none => simp only [cdMinus, h]
+        | some l => simp [cdMinus, h, hB]
+      | false =>
+        have hp : cdPlus (some sp) x s i = s.at i := by simp [cdPlus, hB]
+        cases h : sp.lbW i with
+        | none => exact Or.inl ⟨hp, by simp only [cdMinus, h]⟩
+        | some l =>
+          by_cases hl : getR x i - s.at i < l
+          · exact Or.inr (Or.inr ⟨hp, by simp [cdMinus, h, hB, hl]⟩)
+          · exact Or.inl ⟨hp, by simp [cdMinus, h, hl]⟩
+  rw [absR_eq_abs]
+  rcases key with ⟨hp, hm⟩ | ⟨hp, hm⟩ | ⟨hp, hm⟩ <;> rw [hp, hm]
+  · have e : s.at i - -(s.at i) = 2 * s.at i := by ring
+    rw [e, abs_of_pos (by linarith)]
+    exact ⟨Or.inr rfl, by linarith⟩
+  · have e : (0 : ℚ) - -(s.at i) = s.at i := by ring
+    rw [e, abs_of_pos hh]
+    exact ⟨Or.inl rfl, hh⟩
+  · have e : s.at i - 0 = s.at i := by ring
+    rw [e, abs_of_pos hh]
+    exact ⟨Or.inl rfl, hh⟩
 
 theorem cd_calls_within_upper_bounds (sp : Space) (x : Vec) (s : Step) (idx : List Nat)
     (hx : ∀ j u, sp.ubW j = some u → getR x j ≤ u)
@@ -440,7 +511,7 @@ theorem fd_model_first_order (f : Vec → Vec) (sp : Option Space) (x : Vec) (s 
 /-- Without a design space (or more than one step away from the bounds) the centered scheme uses
     the two symmetric half steps. -/
 theorem cd_steps_unbounded (x : Vec) (s : Step) (i : Nat) :
-    cdPlus none x s i = s.at i ∧ cdMinus none x s i = -(s.at i) := ⟨rfl, rfl⟩
+    cdPlus none x s i = s.at i ∧ cdMinus none x s i = -(s.at i) := ⟨by simp [cdPlus, cdFwdBlocked], rfl⟩
 
 theorem cd_steps_inside (sp : Space) (x : Vec) (s : Step) (i : Nat)
     (hu : ∀ u, sp.ubW i = some u → getR x i + s.at i ≤ u)
@@ -448,15 +519,15 @@ theorem cd_steps_inside (sp : Space) (x : Vec) (s : Step) (i : Nat)
     cdPlus (some sp) x s i = s.at i ∧ cdMinus (some sp) x s i = -(s.at i) := by
   constructor
   · cases h : sp.ubW i with
-    | none => simp only [cdPlus, h]
+    | none => simp [cdPlus, cdFwdBlocked, h]
     | some u =>
-      simp only [cdPlus, h]
-      rw [if_neg (not_lt.mpr (hu u h))]
+      have := not_lt.mpr (hu u h)
+      simp [cdPlus, cdFwdBlocked, h, this]
   · cases h : sp.lbW i with
     | none => simp only [cdMinus, h]
     | some l =>
-      simp only [cdMinus, h]
-      rw [if_neg (not_lt.mpr (hl l h))]
+      have := not_lt.mpr (hl l h)
+      simp [cdMinus, h, this]
 
 theorem cd_model_entry (f : Vec → Vec) (sp : Option Space) (x : Vec) (s : Step) (idx : List Nat)
     (k j : Nat) (hk : k < (effIndices x.length idx).length)
